@@ -5,7 +5,7 @@ calculator's own symmetry classes) is a network of Model/Net.v with 2*dim displa
 (solute, vacancy).  Theorems (Properties/C01.v): the chain's coefficients are well defined (independent of
 the corrector), the certificate checker is sound, the Dyson/resolvent identities behind the Green-function
 formula hold in every ring.  Tie:
- (a) exact tier  - 1-site 2-D crystals, dyadic prefactors (all rates exact rationals): Lij with the torus
+ (a) exact tier  - 2-D crystals (1-3 sites, incl. two Wyckoff sets with unequal site data), dyadic prefactors (all rates exact rationals): Lij with the torus
      Green function injected through its public cache must lie within 1e-9 of THE exact coefficients of the
      chain, decided by the Coq checker over Z;
  (b) float tier  - crystal pool (2-D/3-D, multi-site, several Wyckoff sets, Nthermo 1-2), random energies:
@@ -142,8 +142,8 @@ def run(ck):
     polar_seen = 0
     # ---------------- (a) exact tier --------------------------------------------------------------
     exact_cases = []
-    names_exact = ["square", "rect", "tria"]
-    for rep in range(ck.n(3, 10)):
+    names_exact = ["square", "sq2w", "honeycomb", "rect", "tria"]   # sq2w: two Wyckoff sets with unequal site data
+    for rep in range(ck.n(5, 12)):
         nm = names_exact[rep % len(names_exact)]
         crys, chem = gen.named(nm)
         net = network_for(crys, chem, rng)
